@@ -133,7 +133,7 @@ func Load(repo, goarch string) (*Ctx, error) {
 				if !nf[key] {
 					continue
 				}
-				role := isBoolEmitHelper(fn) || strEmitHelper(fn) || isDispatchHelper(fn) || skipWrapperOf(fn) >= 0
+				role := isBoolEmitHelper(fn) || strEmitHelper(fn) || isDispatchHelper(fn) || skipWrapperOf(fn) >= 0 || isRefillHelper(fn)
 				for pname := range poolTable {
 					if releaseParam(fn, pname) >= 0 {
 						role = true
